@@ -197,6 +197,11 @@ fn hex_decode_stub<T: AsRef<[u8]>>(data: T) -> core::result::Result<Vec<u8>, ::h
 }
 
 fn check_filter(text: &[u8], skip: &[bool]) {
+    if !hdwallet::__verif_common::stubs_active() {
+        // native replay: the real decoder runs, so the recorder is empty; confirm against the end-to-end specification
+        check_against_spec::<16>(text, skip);
+        return;
+    }
     let s = unsafe { core::str::from_utf8_unchecked(text) };
     unsafe { HEX_CALLS = 0; }
     let got = permissive_hex(s);
@@ -491,3 +496,162 @@ cap_harness! { #[kani::unwind(10)] fn c19_respell_2() { check_respell::<2, 4>() 
 cap_harness! { #[kani::unwind(12)] fn c19_respell_3() { check_respell::<3, 6>() } }
 cap_harness! { #[kani::unwind(14)] fn c19_respell_4() { check_respell::<4, 8>() } }
 cap_harness! { #[kani::unwind(22)] fn c19_respell_8() { check_respell::<8, 16>() } }
+
+// ================================================================================= C16: account selection
+// `AccountOptions::private_key` -- the one function through which EVERY command (address, export, public-key, sign ...)
+// obtains its key -- with the three things it wires together as recorders: `Mnemonic::seed` (C02), `hdk::Path::for_index`
+// (C14) and `hdk::derive_slice` (C03). Decided: the seed is taken from THIS mnemonic with THIS password; without --hd-path the
+// key is derived along the path `for_index(account_index)` returns (account index symbolic, all 2^64 values), with --hd-path
+// along the parsed path and `for_index` is not consulted; errors of either step are passed on and nothing is derived then;
+// the key (or error) of the derivation is returned unchanged.
+static mut SEED_CALLS: usize = 0;
+static mut SEED_MNEMONIC_OK: bool = false;
+static mut SEED_PW_LEN: usize = 0;
+static mut SEED_PW: [u8; 16] = [0; 16];
+static mut FI_CALLS: usize = 0;
+static mut FI_INDEX: usize = 0;
+static mut FI_FAILS: bool = false;
+static mut DV_CALLS: usize = 0;
+static mut DV_SEED_OK: bool = false;
+static mut DV_COMPONENTS: usize = 0;
+static mut DV_FIRST: u32 = 0;
+static mut DV_FIRST_HARDENED: bool = false;
+static mut DV_FAILS: bool = false;
+static mut THE_MNEMONIC: *const Mnemonic = core::ptr::null();
+const SEED_BYTES: [u8; 64] = [0x5e; 64];
+
+fn seed_stub<P: AsRef<str>>(mnemonic: &Mnemonic, password: P) -> hdwallet::mnemonic::Seed {
+    unsafe {
+        SEED_CALLS += 1;
+        SEED_MNEMONIC_OK = core::ptr::eq(mnemonic, THE_MNEMONIC);
+        let pw = password.as_ref().as_bytes();
+        SEED_PW_LEN = pw.len();
+        assert!(pw.len() <= 16);
+        hdwallet::__verif_common::copy_bytes_sym::<1>(&mut SEED_PW, pw);
+        core::mem::transmute::<[u8; 64], hdwallet::mnemonic::Seed>(SEED_BYTES)
+    }
+}
+fn for_index_stub(index: usize) -> Result<hdk::Path> {
+    unsafe {
+        FI_CALLS += 1;
+        FI_INDEX = index;
+        if FI_FAILS {
+            return Err(anyhow::Error::msg("account index out of range"));
+        }
+        // the path [Hardened(77)] stands for "whatever for_index returns"
+        Ok(core::mem::transmute::<Vec<hdk::Component>, hdk::Path>(vec![hdk::Component::Hardened(77)]))
+    }
+}
+fn derive_slice_stub(seed: &[u8], path: &hdk::Path) -> Result<PrivateKey> {
+    unsafe {
+        DV_CALLS += 1;
+        DV_SEED_OK = seed.len() == 64 && hdwallet::__verif_common::bytes_eq(seed, &SEED_BYTES);
+        let mut n = 0;
+        for c in path.components() {
+            if n == 0 {
+                match c {
+                    hdk::Component::Hardened(v) => { DV_FIRST = v; DV_FIRST_HARDENED = true; }
+                    hdk::Component::Normal(v) => { DV_FIRST = v; DV_FIRST_HARDENED = false; }
+                }
+            }
+            n += 1;
+        }
+        DV_COMPONENTS = n;
+        if DV_FAILS {
+            return Err(anyhow::Error::msg("invalid child key"));
+        }
+        PrivateKey::new([0x11; 32])
+    }
+}
+
+hdwallet::verif_harness_nofmt! {
+    #[kani::stub(hdwallet::mnemonic::Mnemonic::seed, seed_stub)]
+    #[kani::stub(hdwallet::hdk::Path::for_index, for_index_stub)]
+    #[kani::stub(hdwallet::hdk::derive_slice, derive_slice_stub)]
+    #[kani::unwind(8)]
+    fn c16_account_default() { account_selection_body::<0>() }
+}
+hdwallet::verif_harness_nofmt! {
+    #[kani::stub(hdwallet::mnemonic::Mnemonic::seed, seed_stub)]
+    #[kani::stub(hdwallet::hdk::Path::for_index, for_index_stub)]
+    #[kani::stub(hdwallet::hdk::derive_slice, derive_slice_stub)]
+    #[kani::unwind(8)]
+    fn c16_account_hd_path() { account_selection_body::<1>() }
+}
+hdwallet::verif_harness_nofmt! {
+    #[kani::stub(hdwallet::mnemonic::Mnemonic::seed, seed_stub)]
+    #[kani::stub(hdwallet::hdk::Path::for_index, for_index_stub)]
+    #[kani::stub(hdwallet::hdk::derive_slice, derive_slice_stub)]
+    #[kani::unwind(8)]
+    fn c16_account_bad_path() { account_selection_body::<2>() }
+}
+fn account_selection_body<const WHICH: u8>() {
+    let pw: [u8; 3] = kani::any();
+    let pw_len: usize = kani::any();
+    kani::assume(pw_len <= 3 && pw[0] < 0x80 && pw[1] < 0x80 && pw[2] < 0x80);
+    let password = match pw_len {
+        0 => String::new(),
+        1 => unsafe { String::from_utf8_unchecked(vec![pw[0]]) },
+        2 => unsafe { String::from_utf8_unchecked(vec![pw[0], pw[1]]) },
+        _ => unsafe { String::from_utf8_unchecked(vec![pw[0], pw[1], pw[2]]) },
+    };
+    let account_index: usize = kani::any();
+    let which_path: u8 = WHICH;
+    // no --hd-path, a well-formed one (m/9) or a malformed one (no root): one query each
+    let hd_path = match which_path {
+        0 => None,
+        1 => Some("m/9".to_string()),
+        _ => Some("9".to_string()),
+    };
+    let options = AccountOptions {
+        mnemonic: unsafe { core::mem::zeroed() },
+        password,
+        account_index,
+        hd_path,
+    };
+    unsafe {
+        THE_MNEMONIC = &options.mnemonic;
+        FI_FAILS = kani::any();
+        DV_FAILS = kani::any();
+    }
+    let got = options.private_key();
+    kani::cover!(which_path == 2 || got.is_ok(), "key derived");
+    kani::cover!(got.is_err(), "error passed on");
+    kani::cover!(account_index > u32::MAX as usize, "account index beyond 32 bits");
+    kani::cover!(pw_len == 3 && pw[2] == b' ', "three-character password ending in a space");
+    unsafe {
+        assert!(SEED_CALLS == 1 && SEED_MNEMONIC_OK, "the seed is not taken from the given mnemonic");
+        assert!(SEED_PW_LEN == pw_len, "the seed is not salted with the given password");
+        assert!(pw_len < 1 || SEED_PW[0] == pw[0]);
+        assert!(pw_len < 2 || SEED_PW[1] == pw[1]);
+        assert!(pw_len < 3 || SEED_PW[2] == pw[2]);
+        let path_ok = match which_path {
+            0 => {
+                assert!(FI_CALLS == 1 && FI_INDEX == account_index, "default path is not for_index(account_index)");
+                !FI_FAILS
+            }
+            1 => {
+                assert!(FI_CALLS == 0, "--hd-path given but the account index was used");
+                true
+            }
+            _ => {
+                assert!(FI_CALLS == 0);
+                false
+            }
+        };
+        if !path_ok {
+            assert!(got.is_err(), "path error swallowed");
+            assert!(DV_CALLS == 0, "a key was derived although the path is invalid");
+        } else {
+            assert!(DV_CALLS == 1 && DV_SEED_OK, "the key is not derived from the mnemonic's seed");
+            assert!(DV_COMPONENTS == 1, "derivation path");
+            if which_path == 0 {
+                assert!(DV_FIRST == 77 && DV_FIRST_HARDENED, "the key is not derived along the account-index path");
+            } else {
+                assert!(DV_FIRST == 9 && !DV_FIRST_HARDENED, "the key is not derived along the given --hd-path");
+            }
+            assert!(got.is_ok() == !DV_FAILS, "result of the derivation not returned unchanged");
+        }
+    }
+    core::mem::forget(got);
+}
